@@ -226,12 +226,3 @@ def run(ctx):
 
 def search(ctx, disagreements):
     return []
-
-
-def replay(payload):
-    c = payload.get("case", {})
-    if "frames" in c and isinstance(c["frames"], list):
-        frames = [common.unhex(x) for x in c["frames"]]
-        ok, doc = impl_doc(frames)
-        print("ok=%s doc=%s" % (ok, json.dumps(doc)[:600] if ok else doc))
-    return 0
